@@ -39,12 +39,25 @@ class TrioRunner(BaseRunner):
             self._logger.warning(f"discarding payload {payload} during shutdown")
             return
         except RuntimeError:
-            # trio raises a bare RuntimeError when we are already in the trio thread
+            # trio raises a bare RuntimeError when we are already in a trio thread
+            if trio.lowlevel.current_trio_token() is not self._trio_token:
+                # ... of a foreign trio run (a thread payload with its own loop):
+                # let our own trio thread do the submission
+                try:
+                    self._trio_token.run_sync_soon(self._submit_nowait, payload)
+                except trio.RunFinishedError:
+                    self._logger.warning(
+                        f"discarding payload {payload} during shutdown"
+                    )
+                return
             # just submit the task directly
-            try:
-                self._submit_tasks.send_nowait(payload)
-            except trio.ClosedResourceError:
-                self._logger.warning(f"discarding payload {payload} during shutdown")
+            self._submit_nowait(payload)
+
+    def _submit_nowait(self, payload: Callable[[], Awaitable]):
+        try:
+            self._submit_tasks.send_nowait(payload)
+        except trio.ClosedResourceError:
+            self._logger.warning(f"discarding payload {payload} during shutdown")
 
     def run_payload(self, payload: Callable[[], Coroutine]):
         assert self._trio_token is not None and self._submit_tasks is not None
